@@ -36,7 +36,7 @@ type c12Case struct {
 	Verifier   string `json:"verifier"`  // right | wrong | absent | challenge-itself
 	CredsIn    string `json:"creds_in"`  // header | form | header-escaped | header+form-id-of-code-client
 	Redirect   string `json:"redirect"`  // same | different | case | trailing
-	CodeKind   string `json:"code_kind"` // fresh | expired | tampered | resigned-foreign | access-token | id-token | session-cookie | other-client-code
+	CodeKind   string `json:"code_kind"` // fresh | expired | tampered | resigned-foreign | access-token | id-token | session-cookie | other-client-code | peer-issued
 	Signer     string `json:"signer"`
 }
 
@@ -51,7 +51,9 @@ func c12World(signer string) *vWorld {
 		return w
 	}
 	w := vNewWorld(vWorldOpts{SignerKind: signer, WebUIBackends: []string{"password"}, CertBackends: []string{"password"},
-		Users: map[string]string{vUserAlice: vPwAlice, vUserBob: "bob-pw"}, NoDB: true})
+		Users: map[string]string{vUserAlice: vPwAlice, vUserBob: "bob-pw"}, NoDB: true,
+		// an HA peer whose public key the operator lists as trusted
+		ForeignPeerKey: true})
 	for _, c := range []string{"A", "B", "P", "Q"} {
 		w.state.Config.OpenIDConnectIDP.Client = append(w.state.Config.OpenIDConnectIDP.Client, OpenIDConnectClientConfig{
 			ClientID: c12ClientID(c), ClientSecret: c12Secrets[c], AllowedRedirectDomains: []string{"example.com"}})
@@ -86,7 +88,7 @@ func c12Gen(t *rapid.T) c12Case {
 		case 3:
 			c.Redirect = rapid.SampledFrom([]string{"same", "different", "case", "trailing"}).Draw(t, "redirect")
 		case 4:
-			c.CodeKind = rapid.SampledFrom([]string{"fresh", "expired", "tampered", "resigned-foreign", "access-token", "id-token", "session-cookie", "other-client-code"}).Draw(t, "codeKind")
+			c.CodeKind = rapid.SampledFrom([]string{"fresh", "expired", "tampered", "resigned-foreign", "access-token", "id-token", "session-cookie", "other-client-code", "peer-issued", "peer-issued"}).Draw(t, "codeKind")
 		}
 	}
 	c.Signer = rapid.SampledFrom([]string{"rsa2048", "rsa2048", "p256"}).Draw(t, "signer")
@@ -193,6 +195,18 @@ func c12Check(c c12Case) *vResult {
 		tok.Claims(w.state.Signer.Public(), &m)
 		presented = vSignJWT(vKey(c.Signer, "foreign"), m)
 		codeValid = false
+	case "peer-issued":
+		// the same code as a trusted HA peer (another host identity, its key
+		// listed in this server's trusted keymaster keys) would have minted it.
+		// Whether this server redeems it is not decided by the statement; what it
+		// releases must still name THIS server and verify under ITS JWKS.
+		algs, _ := w.state.getJoseKeymastedVerifierList()
+		tok, _ := jwt.ParseSigned(code, algs)
+		m := map[string]interface{}{}
+		tok.Claims(w.state.Signer.Public(), &m)
+		m["iss"] = "https://peer-keymaster.example.net"
+		presented = vSignJWT(vKey("rsa2048", "peer"), m)
+		res.label("peer-issued")
 	case "session-cookie":
 		presented = w.authCookie(c.User, AuthTypePassword|AuthTypeU2F, 0)
 		codeValid = false
@@ -311,7 +325,7 @@ func c12Check(c c12Case) *vResult {
 	secretRight := secretClient && secret == tokSecretCfg
 	// which challenge is bound into the code
 	bound := ""
-	if c.CodeKind == "fresh" || c.CodeKind == "expired" || c.CodeKind == "tampered" {
+	if c.CodeKind == "fresh" || c.CodeKind == "expired" || c.CodeKind == "tampered" || c.CodeKind == "peer-issued" {
 		switch c.Challenge {
 		case "S256":
 			bound = "S256"
@@ -343,7 +357,7 @@ func c12Check(c c12Case) *vResult {
 	res.label(fmt.Sprintf("false-conjuncts:%d", falseCount))
 	// don't-care: a secret-bearing client that also sends a verifier (the code
 	// refuses it; the statement does not decide)
-	dontCare := secretClient && c.Verifier != "absent"
+	dontCare := (secretClient && c.Verifier != "absent") || c.CodeKind == "peer-issued"
 
 	resp := vServe(w.state.idpOpenIDCTokenHandler, req)
 	if resp.Panic != "" {
@@ -467,6 +481,6 @@ func c12Redeem(w *vWorld, client, code, redirect string) (string, string) {
 
 func TestVerifC12Tokens(t *testing.T) {
 	vRunRapid(t,
-		"rapid: the valid combination with 0-3 perturbed axes over (token-endpoint client A/B/P/Q/unknown, secret right/wrong/absent/other/empty/whitespace-only/right one padded with whitespace/right one truncated/case-changed, verifier right/wrong/absent/challenge-itself, redirect same/different/case/trailing, code fresh/expired/tampered/re-signed/access-token/id-token/session-cookie/other client's code) x authorize-side (user, client incl. two secret-less ones, challenge none/S256/plain implicit/plain explicit/unknown, nonce, issued 0-290 s ago) x credentials in header / form / escaped header x RSA/ECDSA signer; non-trivial = at most one conjunct of the statement false; distinct = the truth vector with all case axes",
+		"rapid: the valid combination with 0-3 perturbed axes over (token-endpoint client A/B/P/Q/unknown, secret right/wrong/absent/other/empty/whitespace-only/right one padded with whitespace/right one truncated/case-changed, verifier right/wrong/absent/challenge-itself, redirect same/different/case/trailing, code fresh/expired/tampered/re-signed by an untrusted key/minted by a trusted HA peer with another host identity/access-token/id-token/session-cookie/other client's code) x authorize-side (user, client incl. two secret-less ones, challenge none/S256/plain implicit/plain explicit/unknown, nonce, issued 0-290 s ago) x credentials in header / form / escaped header x RSA/ECDSA signer; non-trivial = at most one conjunct of the statement false; distinct = the truth vector with all case axes",
 		c12Gen, c12Check)
 }
